@@ -191,7 +191,13 @@ def parse_keywords(lines, multiline_values=True, key_hints=None):
                 rtn[line.strip()] = DEFAULT_VALUE
 
             elif multiline_values is False:
-                rtn[key] = value
+                if key in rtn:
+                    if isinstance(rtn[key], list):
+                        rtn[key].append(value)
+                    else:
+                        rtn[key] = [rtn[key], value]
+                else:
+                    rtn[key] = value
                 rtn[line.strip()] = DEFAULT_VALUE
                 key = None
                 value = ''
